@@ -141,6 +141,8 @@ func buildSeeds(dir string) *seedBuilder {
 		{file: "zlib1g_1.2.8.dfsg-5_i386.deb", ext: ".deb", layout: "ar", quick: false, quickS: false, sign: true},
 		{file: "rocky-basesystem-11-13.el9.noarch.rpm", ext: ".rpm", layout: "rpm", quick: true, quickS: false, sign: true},
 		{file: "InRelease", ext: "", layout: "text", quick: true},
+		// a document with one line longer than 64 KiB, cleartext-signed (the signer and the verifier scan it line by line)
+		{name: "longline.txt", ext: ".txt", layout: "text", data: []byte("first\n" + strings.Repeat("z", 70000) + "\nlast\n"), sigType: "pgp", quickS: true, sign: true, flags: url.Values{"clearsign": {"true"}}},
 		{file: "Release.gpg", ext: ".gpg", layout: "text", quick: false, content: filepath.Join(P, "Release")},
 		{file: "slimfile.app/dummyapp", name: "slimfile.macho", ext: "", layout: "macho", quick: false, sign: true,
 			flags: url.Values{"info-plist": {filepath.Join(P, "slimfile.app/Info.plist")}, "resources": {filepath.Join(P, "slimfile.app/_CodeSignature/CodeResources")}}},
